@@ -151,7 +151,7 @@ def gen_case(seed, run, tier):
         elif roll < 0.76:
             vk = rw.choice([n for n in spec["species"] if n != "H2O"])
             lo = math.log10(max(init[vk], 1e-7))
-            op = {"op": "roots", "chain": rs.choice(["log", "loglin", "lin"]), "varied": vk,
+            op = {"op": "roots", "chain": rs.choice(["log", "log", "loglin", "loglin", "lin", "lin", "linrel"]), "varied": vk,
                   "values": [10 ** (lo + d) for d in sorted(rw.uniform(-1.5, 1.5) for _ in range(rw.randint(3, 5)))]}
         elif roll < 0.88:
             cands = [n for n in spec["species"] if n != "H2O"]
